@@ -134,6 +134,17 @@ def loops_bounded_by_rounds(prog, f, am):
     return res
 
 
+def keyed_types(ctx, prog):
+    """struct types that a public key/tweak function takes as its object (e.g. the tweakable schedules)."""
+    out = set()
+    for name, f, c, decl in public_functions(ctx, prog):
+        if c["kind"] in ("key", "tweak") and "ks" in c["params"]:
+            t = handle_type(f)
+            if t:
+                out.add(t)
+    return out
+
+
 def run_config(ctx, rep, cfg, fixture_prog=None, raw_prog=None):
     cn = config_name(cfg) if fixture_prog is None else "fixture"
     prog = fixture_prog or ctx.prog(cfg)
@@ -214,7 +225,8 @@ def run_config(ctx, rep, cfg, fixture_prog=None, raw_prog=None):
             rep.ok("C11.R7", construct(f), fsite(f), "no load from *obj", cfg=cn)
     # ---- R5
     nsched = 0
-    for T in sorted(schedule_types(prog)):
+    all_T = schedule_types(prog) | keyed_types(ctx, prog)
+    for T in sorted(all_T):
         readers = {}
         for f in prog.defined():
             s = an.summaries[f.key]
@@ -260,7 +272,10 @@ def run_config(ctx, rep, cfg, fixture_prog=None, raw_prog=None):
                         m = [x for x in prog.ditypes[T]["members"] if x["name"] == fld][0]
                         if re.search(r"\[\d+\]$", m["type"]):
                             arrays.add(fld)
+            nested = {m["name"] for m in prog.ditypes[T]["members"] if m["type"] in all_T}
             for fld, (rf, w) in sorted(readers.items()):
+                if fld in nested:
+                    continue      # an embedded schedule type has its own obligations
                 nsched += 1
                 inst = "%s:%s.%s" % (construct(f), T, fld)
                 if fld in written:
